@@ -28,6 +28,26 @@ import (
 // BindPattern is the bind DN pattern to configure in the authenticator under test.
 const BindPattern = "uid=%s,ou=people,dc=example,dc=com"
 
+// Patterns maps pattern kinds to bind patterns: "e" names the user's entry, "n" is a well-formed DN
+// under a branch that holds no entries (the directory answers invalidCredentials whatever the
+// password), "m" is a userPrincipalName-style name the directory answers with invalidDNSyntax.
+func Patterns(kinds []string) ([]string, bool) {
+	var out []string
+	for _, k := range kinds {
+		switch k {
+		case "e":
+			out = append(out, BindPattern)
+		case "n":
+			out = append(out, "uid=%s,ou=service,dc=example,dc=com")
+		case "m":
+			out = append(out, "%s@corp.example.com")
+		default:
+			return nil, false
+		}
+	}
+	return out, true
+}
+
 type Cluster struct {
 	mu      sync.Mutex
 	pw      map[string]string // lower-case uid -> current password
@@ -160,6 +180,10 @@ func (c *Cluster) handleBind(i int, w ldapserver.ResponseWriter, m *ldapserver.M
 	c.mu.Lock()
 	st := c.status[i]
 	want, known := c.pw[uid]
+	name := strings.ToLower(string(r.Name()))
+	if !strings.Contains(name, ",ou=people,") {
+		known = false // only ou=people holds entries
+	}
 	anon := c.anon
 	mark := ""
 	switch {
@@ -170,6 +194,11 @@ func (c *Cluster) handleBind(i int, w ldapserver.ResponseWriter, m *ldapserver.M
 		}
 		res.SetResultCode(code)
 		res.SetDiagnosticMessage("verif: server cannot process the bind right now")
+		mark = "e"
+	case !strings.Contains(name, "="):
+		// like OpenLDAP answers a userPrincipalName-style bind name: an error, not a verdict
+		res.SetResultCode(ldapserver.LDAPResultInvalidDNSyntax)
+		res.SetDiagnosticMessage("invalid DN")
 		mark = "e"
 	case pass == "":
 		// RFC 4513 5.1.2: unauthenticated bind. Either "success" (Active Directory default) or
